@@ -4,7 +4,7 @@
 From V.Lib Require Import Base Hex.
 From V.Gen Require Import C11Consts.
 From V.Gen Require Import C11Legacy.
-From V.C11 Require Import Model Spec Tab Eqb Legacy CorrLegacy Gap CorrGap Corr Wf ProofsAddr ProofsCodec ProofsLegacy ProofsGap Bridge.
+From V.C11 Require Import Model Spec Tab Eqb Legacy CorrLegacy Gap CorrGap Corr Wf ProofsAddr ProofsCodec ProofsDecode ProofsFind ProofsLegacy ProofsGap Bridge BridgeA BridgeB Strings.
 Local Open Scope N_scope.
 
 (* ---------------------------------------------------------------------------------------- *)
@@ -308,11 +308,124 @@ Theorem C11_gap_generate_nothing : forall O sivk g k f scope r rk find st,
 Proof. exact generate_gap_addresses_nothing. Qed.
 
 (* ---------------------------------------------------------------------------------------- *)
-(** ** bridge (partial): agreement with the model implies the property *)
+(** ** bridge: on every well-formed case, agreement with the model implies the property *)
 
-Theorem C11_agree_implies_property_partial : forall c,
-  bridged c = true -> wf_case c = true -> known_class c = 0 -> run_case c = true -> prop_case c = true.
-Proof. exact agree_implies_property_partial. Qed.
+Theorem C11_agree_implies_property : forall c,
+  wf_case c = true -> known_class c = 0 -> run_case c = true -> prop_case c = true.
+Proof. exact agree_implies_property. Qed.
+
+(* ---------------------------------------------------------------------------------------- *)
+(** ** find_address: termination and fuel *)
+
+Theorem C11_find_address_terminates : forall O fuel k j r j',
+  j <= j' -> j' < DIVERSIFIER_SPACE -> (N.to_nat (j' - j) < fuel)%nat ->
+  (forall i, j <= i < j' -> skips O k r i) -> ~ skips O k r j' ->
+  uivk_find_address O fuel k j r
+  = match uivk_address O k j' r with
+    | Ok a => Ok (a, j')
+    | Err e => Err e
+    | Panic => Panic
+    end.
+Proof. exact find_address_terminates. Qed.
+
+Theorem C11_find_address_finds : forall O fuel k j r j' a,
+  j <= j' -> j' < DIVERSIFIER_SPACE -> (N.to_nat (j' - j) < fuel)%nat ->
+  uivk_address O k j' r = Ok a ->
+  uivk_find_address O fuel k j r <> Err FindOutOfFuel.
+Proof. exact find_address_finds. Qed.
+
+Theorem C11_find_address_fuel_bound : forall O fuel k j r,
+  j < DIVERSIFIER_SPACE -> (N.to_nat (DIVERSIFIER_SPACE - j) <= fuel)%nat ->
+  uivk_find_address O fuel k j r <> Err FindOutOfFuel.
+Proof. exact find_address_fuel_bound. Qed.
+
+(* ---------------------------------------------------------------------------------------- *)
+(** ** decoding direction of the ZIP 316 container *)
+
+Theorem C11_compactsize_canonical : forall b v r,
+  is_bytes b = true -> cs_read b = Some (v, r) -> b = cs_write v ++ r /\ is_bytes r = true.
+Proof. exact cs_read_canonical. Qed.
+
+Theorem C11_ufvk_decode_canonical : forall O net hrp raw k,
+  is_bytes raw = true -> ufvk_decode O net (Bech hrp (Some raw)) = Ok k ->
+  canon_on (dec_t_fvk O) (fvk_t k) -> canon_on (dec_s_fvk O) (fvk_s k) -> canon_on (dec_o_fvk O) (fvk_o k) ->
+  ufvk_encode net k = Ok (hrp, raw).
+Proof. exact ufvk_decode_canonical. Qed.
+
+Theorem C11_uivk_decode_canonical : forall O net hrp raw k,
+  is_bytes raw = true -> uivk_decode O net (Bech hrp (Some raw)) = Ok k ->
+  canon_on (dec_t_ivk O) (ivk_t k) -> canon_on (dec_s_ivk O) (ivk_s k) -> canon_on (dec_o_ivk O) (ivk_o k) ->
+  uivk_encode net k = Ok (hrp, raw).
+Proof. exact uivk_decode_canonical. Qed.
+
+Theorem C11_ufvk_decode_reencodes : forall O net hrp raw k,
+  is_bytes raw = true -> ufvk_decode O net (Bech hrp (Some raw)) = Ok k ->
+  exists e, ufvk_encode net k = Ok e.
+Proof. exact ufvk_decode_reencodes. Qed.
+
+Theorem C11_ufvk_decode_total : forall O net i,
+  dinput_ok i ->
+  (forall x, dec_t_fvk O x <> OPanic) -> (forall x, dec_s_fvk O x <> OPanic) -> (forall x, dec_o_fvk O x <> OPanic) ->
+  ufvk_decode O net i <> Panic.
+Proof. exact ufvk_decode_total. Qed.
+
+Theorem C11_uivk_decode_total : forall O net i,
+  dinput_ok i ->
+  (forall x, dec_t_ivk O x <> OPanic) -> (forall x, dec_s_ivk O x <> OPanic) -> (forall x, dec_o_ivk O x <> OPanic) ->
+  uivk_decode O net i <> Panic.
+Proof. exact uivk_decode_total. Qed.
+
+(* ---------------------------------------------------------------------------------------- *)
+(** ** string level: Bech32m, F4Jumble, Bech32 and Base58Check from the proved C10 model
+       (only BLAKE2b inside F4Jumble stays a parameter: [H], [G] with byte-string outputs) *)
+
+Theorem C11_string_layer_roundtrip : forall H G,
+  (forall i l x, is_bytes (H i l x) = true) -> (forall i j x, is_bytes (G i j x) = true) ->
+  forall hrp raw s, PB32b.hrp_okb hrp = true -> is_bytes raw = true ->
+  string_of H G (hrp, raw) = Ok s -> dinput_of H G s = Bech hrp (Some raw).
+Proof. exact string_layer_roundtrip. Qed.
+
+Theorem C11_ufvk_string_roundtrip : forall H G,
+  (forall i l x, is_bytes (H i l x) = true) -> (forall i j x, is_bytes (G i j x) = true) ->
+  forall O net k s,
+  net < 3 -> ufvk_wf O k -> ufvk_encodable k = true ->
+  comp_len_ok KFvk (fvk_t k) (fvk_s k) (fvk_o k) -> unknown_sizes_ok (fvk_unknown k) ->
+  obytes (fvk_t k) -> obytes (fvk_s k) -> obytes (fvk_o k) -> items_bytes (fvk_unknown k) ->
+  ufvk_encode_str H G net k = Ok s ->
+  ufvk_decode_str H G O net s = Ok k
+  /\ forall net', net' <> net -> ufvk_decode_str H G O net' s = Err ENetwork.
+Proof. exact ufvk_string_roundtrip. Qed.
+
+Theorem C11_uivk_string_roundtrip : forall H G,
+  (forall i l x, is_bytes (H i l x) = true) -> (forall i j x, is_bytes (G i j x) = true) ->
+  forall O net k s,
+  net < 3 -> uivk_wf O k -> uivk_encodable k = true ->
+  comp_len_ok KIvk (ivk_t k) (ivk_s k) (ivk_o k) -> unknown_sizes_ok (ivk_unknown k) ->
+  obytes (ivk_t k) -> obytes (ivk_s k) -> obytes (ivk_o k) -> items_bytes (ivk_unknown k) ->
+  uivk_encode_str H G net k = Ok s ->
+  uivk_decode_str H G O net s = Ok k
+  /\ forall net', net' <> net -> uivk_decode_str H G O net' s = Err ENetwork.
+Proof. exact uivk_string_roundtrip. Qed.
+
+Theorem C11_legacy_string_roundtrip : forall k prim hrp payload key s,
+  PB32b.hrp_okb hrp = true -> is_bytes payload = true ->
+  reader k prim payload = OSome key ->
+  legacy_encode_str hrp payload = Some s ->
+  legacy_decode k prim hrp (binput_of s) = Ok key
+  /\ forall hrp', bytes_eqb hrp hrp' = false -> legacy_decode k prim hrp' (binput_of s) = Err BHrpMismatch.
+Proof. exact legacy_string_roundtrip. Qed.
+
+Theorem C11_extfvk_string_roundtrip : forall prim net payload key s,
+  net < 3 -> is_bytes payload = true -> prim payload = OSome key ->
+  legacy_encode_str (nc_hrp LFvk net) payload = Some s ->
+  decode_extfvk_with_network prim (binput_of s) = Ok (net, key).
+Proof. exact extfvk_string_roundtrip. Qed.
+
+Theorem C11_transparent_string_roundtrip : forall pk sh a,
+  length pk = length sh -> bytes_eqb sh pk = false -> taddr_wf a ->
+  is_bytes (t_encode pk sh a) = true ->
+  t_decode_str pk sh (t_encode_str pk sh a) = Ok (Some a).
+Proof. exact transparent_string_roundtrip. Qed.
 
 (* ---------------------------------------------------------------------------------------- *)
 (** ** non-vacuity: the hypotheses are satisfiable, the interesting branches are reachable *)
